@@ -56,29 +56,46 @@ Qed.
 Theorem sensors_reader_total ls : exists r, sensors_load ls = r.
 Proof. eexists. reflexivity. Qed.
 
-Theorem sensors_uniform_columns ls n k nc :
-  sensors_load ls = SOk n k nc ->
+(* when both passes ignore the same lines, the reading pass reads exactly the lines the counting pass counted *)
+Theorem sensors_passes_agree (cskip rskip : sline -> bool) ls :
+  (forall l, cskip l = rskip l) -> read_rows rskip (length (counted cskip ls)) ls = counted cskip ls.
+Proof.
+  intros E. unfold read_rows, counted.
+  replace (filter (fun l => negb (rskip l)) ls) with (filter (fun l => negb (cskip l)) ls)
+    by (apply filter_ext; intros l; rewrite E; reflexivity).
+  apply firstn_all.
+Qed.
+
+Lemma rows_fst (f : nat * sline -> nat) (l : list sline) : forall a,
+  map fst (map (fun kr => (s_idx (snd kr), f kr)) (combine (seq a (length l)) l)) = map s_idx l.
+Proof. induction l as [|x r IH]; intros a; [reflexivity|]. cbn [length seq combine map fst snd]. rewrite IH. reflexivity. Qed.
+
+Theorem sensors_uniform_columns ls n k nc rows :
+  sensors_load ls = SOk n k nc rows ->
   let ne := filter (fun l => negb (s_empty l)) ls in
-  n = length ne /\ (3 <= nc)%nat /\ nc <> 4%nat /\
+  n = length ne /\ (3 <= nc)%nat /\ nc <> 4%nat /\ map fst rows = map s_idx ne /\
   exists c, (c = nc \/ c = S nc) /\ forall l, In l ne -> s_ntok l = c.
 Proof.
-  unfold sensors_load. cbv zeta. destruct (filter (fun l => negb (s_empty l)) ls) as [|l0 t] eqn:F; [discriminate|].
+  unfold sensors_load, sensors_load2. cbv zeta. rewrite (sensors_passes_agree s_empty s_empty ls (fun _ => eq_refl)).
+  unfold counted. destruct (filter (fun l => negb (s_empty l)) ls) as [|l0 t] eqn:F; [discriminate|].
   destruct (negb (forallb (fun l => Nat.eqb (s_ntok l) (s_ntok l0)) (l0 :: t))) eqn:U; [discriminate|].
   destruct (Nat.eqb (s_ntok l0) 0) eqn:Z0; [discriminate|].
   set (lab := negb (existsb s_dot (l0 :: t))).
   destruct (Nat.ltb (if lab then (s_ntok l0 - 1)%nat else s_ntok l0) 3) eqn:L3; [discriminate|].
   destruct (Nat.eqb (if lab then (s_ntok l0 - 1)%nat else s_ntok l0) 4) eqn:E4; [discriminate|].
-  intros H. inversion H; subst. clear H. split; [reflexivity|].
-  apply Nat.ltb_ge in L3. apply Nat.eqb_neq in E4, Z0. split; [exact L3|]. split; [exact E4|].
+  rewrite Nat.eqb_refl. cbn [negb].
+  intros H. injection H as H1 H2 H3 H4. subst n k nc rows. split; [reflexivity|].
+  apply Nat.ltb_ge in L3. apply Nat.eqb_neq in E4, Z0. split; [exact L3|]. split; [exact E4|]. split.
+  { exact (rows_fst (fun kr => if lab then index_of (s_name (snd kr)) (distinct_names (map s_name (l0 :: t)) []) 0%nat else fst kr) (l0 :: t) 0%nat). }
   exists (s_ntok l0). split; [destruct lab; lia|].
   intros l Hl. apply negb_false_iff in U. rewrite forallb_forall in U. specialize (U l Hl). apply Nat.eqb_eq in U. exact U.
 Qed.
 
-(* a non-empty line with another number of columns than the first one makes the reader refuse the file *)
+(* a non-empty line (white space only included) with another number of columns than the first one: refused *)
 Theorem sensors_short_line_rejected ls l0 t l :
   filter (fun l => negb (s_empty l)) ls = l0 :: t -> In l t -> s_ntok l <> s_ntok l0 -> sensors_load ls = SErr.
 Proof.
-  intros F Hl Hn. unfold sensors_load. rewrite F.
+  intros F Hl Hn. unfold sensors_load, sensors_load2, counted. rewrite F.
   replace (forallb (fun l1 => Nat.eqb (s_ntok l1) (s_ntok l0)) (l0 :: t)) with false; [reflexivity|].
   symmetry. apply not_true_is_false. intro A. rewrite forallb_forall in A. specialize (A l (or_intror Hl)).
   apply Nat.eqb_eq in A. contradiction.
